@@ -4,6 +4,7 @@ package controllers
 
 import (
 	"reflect"
+	"sync"
 
 	"go.universe.tf/metallb/internal/allocator"
 	"go.universe.tf/metallb/internal/ipfamily"
@@ -11,6 +12,7 @@ import (
 	"go.universe.tf/metallb/internal/config"
 	vr "go.universe.tf/metallb/internal/verifrt"
 	corev1 "k8s.io/api/core/v1"
+	"sigs.k8s.io/controller-runtime/pkg/event"
 	metav1 "k8s.io/apimachinery/pkg/apis/meta/v1"
 )
 
@@ -164,4 +166,53 @@ func VerifReloadGate(use int) {
 	vr.Assert(err2 == nil, "snapshot rejected the second time")
 	vr.Assert(reflect.DeepEqual(remembered, again), "an unchanged snapshot no longer equals the remembered configuration after its pools were used by the allocator")
 	vr.Reach("gate checked")
+}
+
+func init() {
+	verifHarnesses["VerifFRRK8sDebouncer"] = func(a []int) { VerifFRRK8sDebouncer(a[0]) }
+}
+
+// VerifFRRK8sDebouncer (C19, frr-k8s variant): every "configuration changed" signal is eventually
+// followed by a reload event, signals within the debounce window are coalesced (at most one event per
+// expiry), and the signalling side is never blocked indefinitely. The reload events are consumed by
+// a separate goroutine, as controller-runtime's channel source does.
+func VerifFRRK8sDebouncer(steps int) {
+	in := make(chan struct{})
+	out := make(chan event.GenericEvent)
+	debouncer(in, out, vr.TimerDuration)
+	var mu sync.Mutex
+	signalsSinceEvent := 0
+	events := 0
+	go func() {
+		for range out {
+			mu.Lock()
+			events++
+			signalsSinceEvent = 0
+			mu.Unlock()
+		}
+	}()
+	expiries := 0
+	for i := 0; i < steps; i++ {
+		if vr.Bool() { // the desired configuration changed
+			in <- struct{}{}
+			mu.Lock()
+			signalsSinceEvent++
+			mu.Unlock()
+			vr.Yield()
+		} else { // the debounce timer expires
+			vr.Assume(vr.TimerPending())
+			vr.FireTimer()
+			expiries++
+			vr.Yield()
+		}
+	}
+	for k := 0; k < 2; k++ {
+		vr.FireTimer()
+		vr.Yield()
+	}
+	mu.Lock()
+	vr.Assert(signalsSinceEvent == 0, "a configuration change was never followed by a reload event")
+	vr.Assert(events <= expiries+2, "more reload events than timer expiries: changes were not coalesced")
+	mu.Unlock()
+	vr.Reach("frr-k8s debouncer settled")
 }
